@@ -166,6 +166,48 @@ func RunInner(t []string) string {
 			return "err"
 		}
 		return "ok " + MsgTree(m).String()
+	case t[0] == "M" && len(t) == 4 && t[2] == "seq":
+		// several decoding calls on ONE message object: u:<hex> = Unpack, j:<hex of doc> = JSON
+		// decode, p = Pack (between decodes, as an application that forwards a message does)
+		st, ok := ParseTree(t[1])
+		if !ok {
+			return "bad-op"
+		}
+		spec, ok := MsgSpecOfTree(st)
+		if !ok {
+			return "bad-op"
+		}
+		m := iso8583.NewMessage(spec)
+		var outs []string
+		for _, step := range strings.Split(t[3], ";") {
+			switch {
+			case step == "p":
+				if _, err := m.Pack(); err != nil {
+					outs = append(outs, "err")
+				} else {
+					outs = append(outs, "ok")
+				}
+			case strings.HasPrefix(step, "u:") || strings.HasPrefix(step, "j:"):
+				data, ok := UnHex(step[2:])
+				if !ok {
+					return "bad-op"
+				}
+				var err error
+				if step[0] == 'u' {
+					err = m.Unpack(data)
+				} else {
+					err = json.Unmarshal(data, m)
+				}
+				if err != nil {
+					outs = append(outs, "err")
+				} else {
+					outs = append(outs, "ok")
+				}
+			default:
+				return "bad-op"
+			}
+		}
+		return "ok " + strings.Join(outs, ",")
 	case t[0] == "X" && len(t) == 4:
 		spec := Shipped(t[1])
 		data, ok := UnHex(t[3])
